@@ -44,7 +44,9 @@ def run(name):
     subprocess.run(["git", "-C", "/repo", "worktree", "add", "--detach", WT, "HEAD"], check=True, capture_output=True)
     try:
         # only the part of the patch that touches the translated files is needed, but the whole patch is applied
-        subprocess.run(["git", "-C", WT, "apply", os.path.abspath(patch)], check=True)
+        ap = subprocess.run(["git", "-C", WT, "apply", os.path.abspath(patch)], capture_output=True, text=True)
+        if ap.returncode != 0:
+            return {"change": tag, "error": "patch does not apply to /repo HEAD: " + ap.stderr.strip()[:200]}
         pr = subprocess.run([sys.executable, "-c", INNER], env=dict(os.environ, VERIF_REPO=WT), capture_output=True, text=True,
                             timeout=3600)
         line = [l for l in pr.stdout.split("\n") if l.startswith("@@")]
